@@ -659,107 +659,119 @@ func c19Move(c *Ctx) {
 		return
 	}
 	where := c.pos(em.Pos())
-	// (a) board mutators called
-	var pushes []ssa.CallInstruction
-	var others []string
+	// (a) board mutators called - in Move or in the helpers it is split into
 	boardT := c.P.NamedType("pkg/board", "Board")
-	for _, blk := range em.Blocks {
-		for _, ins := range blk.Instrs {
-			call, ok := ins.(ssa.CallInstruction)
-			if !ok {
-				continue
-			}
-			f := call.Common().StaticCallee()
-			if f == nil || f.Signature.Recv() == nil {
-				continue
-			}
-			if n := namedOf(f.Signature.Recv().Type()); n == nil || boardT == nil || n.Obj() != boardT.Obj() {
-				continue
-			}
-			switch f {
-			case push:
-				pushes = append(pushes, call)
-			case pop:
-				others = append(others, f.Name())
-			default:
-				if strings.HasPrefix(f.Name(), "Adjudicate") {
-					others = append(others, f.Name())
-				}
-			}
+	evs := flatten(em, func(ins ssa.Instruction, fr *flatFrame) (string, *types.Var, ssa.Value) {
+		call, ok := ins.(ssa.CallInstruction)
+		if !ok {
+			return "", nil, nil
+		}
+		f := call.Common().StaticCallee()
+		if f == nil || f.Signature.Recv() == nil {
+			return "", nil, nil
+		}
+		if n := namedOf(f.Signature.Recv().Type()); n == nil || boardT == nil || n.Obj() != boardT.Obj() {
+			return "", nil, nil
+		}
+		switch {
+		case f == push:
+			v, _ := ins.(ssa.Value)
+			return "push", nil, v
+		case f == pop, strings.HasPrefix(f.Name(), "Adjudicate"):
+			return "other:" + f.Name(), nil, nil
+		}
+		return "", nil, nil
+	})
+	var pushes []flatEv
+	var others []string
+	for _, e := range evs {
+		if e.Kind == "push" {
+			pushes = append(pushes, e)
+		} else {
+			others = append(others, strings.TrimPrefix(e.Kind, "other:"))
 		}
 	}
-	if len(pushes) != 1 || len(others) > 0 {
+	if len(pushes) != 1 || len(others) > 0 || pushes[0].Val == nil {
 		r.Fail("R19-move", "engine.Engine.Move mutates the board only by one PushMove", where, "", fmt.Sprintf("%d PushMove calls, other mutators %v", len(pushes), others))
 		return
 	}
-	pc := pushes[0]
-	arg := pc.Common().Args[1]
-	// the pushed move is an element of PseudoLegalMoves(e.b.Position(), e.b.Turn())
-	ae := pathExpr(arg)
-	genOK := strings.HasPrefix(ae, "PseudoLegalMoves(Position(e.b),Turn(e.b))[")
-	r.Check(genOK, "R19-move", "engine.Engine.Move pushes a generated move", c.pos(pc.Pos()), "", "pushes "+ae)
-	// dominated by Equals(candidate, m) true
-	eqOK := false
-	cur := pc.Block()
-	for cur != nil {
-		d := cur.Idom()
-		if d == nil {
-			break
-		}
-		if ifi, ok := d.Instrs[len(d.Instrs)-1].(*ssa.If); ok {
-			if call, ok := ifi.Cond.(*ssa.Call); ok && call.Call.StaticCallee() == equals {
-				a0, a1 := pathExpr(call.Call.Args[0]), pathExpr(call.Call.Args[1])
-				isCand := strings.HasPrefix(a0, "ParseMove(") || strings.HasPrefix(a1, "ParseMove(")
-				sameMove := a0 == ae || a1 == ae
-				if isCand && sameMove && onEdge(d, 0, cur) {
-					eqOK = true
-				}
-			}
-		}
-		cur = d
+	pe := pushes[0]
+	pc := pe.Ins.(ssa.CallInstruction)
+	arg := pe.frame.resolve(pc.Common().Args[1])
+	// the pushed move is a move generated for the engine's position and side that Equals the parsed text
+	at := pe.topIns().Block()
+	posV, turnV, parsedV, gok := c.genEqual(em, arg, at, 0)
+	genOK := gok && pathExpr(posV) == "Position(e.b)" && pathExpr(turnV) == "Turn(e.b)"
+	detail := "pushes " + pathExpr(arg)
+	if gok {
+		detail += fmt.Sprintf(" generated for (%s, %s)", pathExpr(posV), pathExpr(turnV))
 	}
-	r.Check(eqOK, "R19-move", "engine.Engine.Move pushes only a move equal to the parsed text", c.pos(pc.Pos()), "", "PushMove is not dominated by candidate.Equals(m) for the same m")
-	// returns: nil error only after the push succeeded; errors only without
-	bad := ""
-	pushVal, _ := pc.(ssa.Value)
-	for _, blk := range em.Blocks {
-		ret, ok := blk.Instrs[len(blk.Instrs)-1].(*ssa.Return)
-		if !ok || len(ret.Results) != 1 {
-			continue
-		}
-		isNil := false
-		rv := returnedValue(ret, 0)
-		if rv == nil {
-			continue // the recover block re-returns the spilled result
-		}
-		if cst, ok := rv.(*ssa.Const); ok && cst.IsNil() {
-			isNil = true
-		}
-		afterPushTrue := false
-		cur := blk
-		for cur != nil {
-			d := cur.Idom()
-			if d == nil {
-				break
+	r.Check(genOK, "R19-move", "engine.Engine.Move pushes a generated move", c.pos(pc.Pos()), "", detail)
+	eqOK := gok && c.provenance(em, parsedV).via("ParseMove")
+	r.Check(eqOK, "R19-move", "engine.Engine.Move pushes only a move equal to the parsed text", c.pos(pc.Pos()), "", "PushMove is not guarded by Equals(parsed text, m) for the same m")
+	// returns: nil error only after the push succeeded; errors only without. Decided in the function
+	// that contains the push; if that is a helper, Move must hand its verdict on unchanged.
+	successIffPush := func(fn *ssa.Function, isSuccessCond func(cond ssa.Value, pol bool) bool) string {
+		bad := ""
+		for _, blk := range fn.Blocks {
+			ret, ok := blk.Instrs[len(blk.Instrs)-1].(*ssa.Return)
+			if !ok || len(ret.Results) != 1 || blk == fn.Recover {
+				continue
 			}
-			if ifi, ok := d.Instrs[len(d.Instrs)-1].(*ssa.If); ok {
-				cond := ifi.Cond
-				pol := onEdge(d, 0, cur)
-				if u, ok := cond.(*ssa.UnOp); ok && u.Op == token.NOT {
-					cond, pol = u.X, !pol
-				}
-				if cond == pushVal && pol {
-					afterPushTrue = true
+			rv := returnedValue(ret, 0)
+			if rv == nil {
+				continue // the recover block re-returns the spilled result
+			}
+			isNil := false
+			if cst, ok := rv.(*ssa.Const); ok && cst.IsNil() {
+				isNil = true
+			}
+			after := false
+			for _, ge := range edgeGuards(blk) {
+				if isSuccessCond(ge.cond, ge.pol) {
+					after = true
 				}
 			}
-			cur = d
+			if isNil && !after {
+				bad = joinNonEmpty(bad, "returns success at "+c.pos(ret.Pos())+" without a successful PushMove")
+			}
+			if !isNil && after {
+				if _, isConstErr := rv.(*ssa.Const); !isConstErr {
+					bad = joinNonEmpty(bad, "returns an error at "+c.pos(ret.Pos())+" after the move was pushed")
+				}
+			}
 		}
-		if isNil && !afterPushTrue {
-			bad = joinNonEmpty(bad, "returns success at "+c.pos(ret.Pos())+" without a successful PushMove")
+		return bad
+	}
+	pushFn := pc.Parent()
+	pushVal := pe.Val
+	bad := successIffPush(pushFn, func(cond ssa.Value, pol bool) bool { return cond == pushVal && pol })
+	if pushFn != em && len(pe.Chain) == 1 {
+		// Move returns the helper's error unchanged, or success only where the helper reported none
+		hcall, _ := pe.Chain[0].(ssa.Value)
+		for _, blk := range em.Blocks {
+			ret, ok := blk.Instrs[len(blk.Instrs)-1].(*ssa.Return)
+			if !ok || len(ret.Results) != 1 || blk == em.Recover {
+				continue
+			}
+			rv := returnedValue(ret, 0)
+			if rv == nil || rv == hcall {
+				continue
+			}
+			if cst, ok := rv.(*ssa.Const); ok && cst.IsNil() {
+				okNil := false
+				for _, ge := range edgeGuards(blk) {
+					if bo, ok := ge.cond.(*ssa.BinOp); ok && (bo.X == hcall || bo.Y == hcall) && ((bo.Op == token.EQL && ge.pol) || (bo.Op == token.NEQ && !ge.pol)) {
+						okNil = true
+					}
+				}
+				if !okNil {
+					bad = joinNonEmpty(bad, "returns success at "+c.pos(ret.Pos())+" without the push helper having succeeded")
+				}
+			}
 		}
-		if !isNil && afterPushTrue {
-			bad = joinNonEmpty(bad, "returns an error at "+c.pos(ret.Pos())+" after the move was pushed")
-		}
+	} else if pushFn != em {
+		bad = joinNonEmpty(bad, "the push is nested more than one helper deep (not analysed)")
 	}
 	r.Check(bad == "", "R19-move", "engine.Engine.Move: success iff the push succeeded", where, "", bad)
 	// Equals compares From, To, Promotion
